@@ -651,6 +651,17 @@ def handleSpec (name : String) (ins ans : List String) : String :=
       match arg.toNat?, parseSigEvs ans with
       | some rate, some evs => optVerdict (Spec.oracleSigC04 rate evs)
       | _, _ => "FAIL unparsable"
+    | "c02" =>
+      match arg.splitOn ",", parseScOuts ans with
+      | [h, hm, tm, lone], some msgs =>
+        match unhex h, hm.toNat?, tm.toNat? with
+        | some h, some hm, some tm => optVerdict (Spec.oracleSigC02 h hm tm (lone == "1") msgs)
+        | _, _, _ => "FAIL unparsable"
+      | _, _ => "FAIL unparsable"
+    | "c05one" =>
+      match parseScOuts ans with
+      | some msgs => optVerdict (Spec.oracleSigC05One msgs)
+      | none => "FAIL unparsable"
     | "nosom" =>
       match parseSigEvs ans with
       | some evs => verdict (!evs.any (fun e => match e with | .msg _ (.som ..) => true | _ => false))
